@@ -178,20 +178,49 @@ def passthrough(rep):
     rep.floor("obligations:S3-passthrough", 15)
 
 
+def usable_witness(rep, wd):
+    """S10: compile witness: the alpha-first gray_alpha pixel family is usable like the gray-first one"""
+    rep.rule("S10 witness: get_color and color_convert instantiate for alpha_gray pixels (the permuted layout of gray_alpha), 8 and 16 bit, into rgba/rgb/gray")
+    src = os.path.join(wd, "c18_witness.cpp")
+    open(src, "w").write(HDR + '''
+void witness(){
+  alpha_gray8_pixel_t a; get_color(a, gray_color_t()) = 10; get_color(a, alpha_t()) = 20;
+  rgba8_pixel_t r; color_convert(a, r); rgb8_pixel_t q; color_convert(a, q); gray8_pixel_t g; color_convert(a, g);
+  alpha_gray16_pixel_t b; get_color(b, alpha_t()) = 7; rgba16_pixel_t w; color_convert(b, w);
+  static_assert(std::is_same<color_space_type<alpha_gray8_pixel_t>::type, gray_alpha_t>::value, "alpha_gray pixels have the gray_alpha color space");
+}
+''')
+    rc, err, cmd = C.syntax_only(src, compiler=C.CLANGXX, extra=["-ftemplate-backtrace-limit=0"])
+    rep.count("obligations:S10")
+    if rc == 0:
+        rep.ok("S10-usable", "alpha_gray pixel family: get_color / color_convert instantiate", "4 conversions, 3 channel accesses, 1 static_assert")
+        return
+    seen = set()
+    for e in C.parse_errors(err)[:20]:
+        loc = "%s:%s" % (C.repo_rel(e["file"]), e["line"])
+        key = "S10:%s:%s" % (loc if e["file"].startswith(C.REPO) else "witness", re.sub(r"'[^']{60,}'", "'...'", e["msg"])[:100])
+        if key in seen:
+            continue
+        seen.add(key)
+        rep.violation("S10-usable", key, loc, {"error": e["msg"][:300]})
+
+
 def ast_rules(rep):
     wd = C.workdir("C18ast")
+    usable_witness(rep, wd)
     src = os.path.join(wd, "c18_ast.cpp")
     open(src, "w").write(HDR + '''
 template <class S, class D> void cc(){ S s; D d; color_convert(s, d); }
 void inst(){
   cc<rgb8_pixel_t,hsv32f_pixel_t>(); cc<hsv32f_pixel_t,rgb8_pixel_t>(); cc<rgb8_pixel_t,hsl32f_pixel_t>(); cc<hsl32f_pixel_t,rgb8_pixel_t>();
   cc<rgb8_pixel_t,xyz32f_pixel_t>(); cc<xyz32f_pixel_t,rgb8_pixel_t>(); cc<rgb8_pixel_t,lab32f_pixel_t>(); cc<lab32f_pixel_t,rgb8_pixel_t>();
-  cc<rgb8_pixel_t,ycbcr_601_8_pixel_t>(); cc<ycbcr_601_8_pixel_t,rgb8_pixel_t>(); cc<gray_alpha8_pixel_t,rgba8_pixel_t>(); cc<gray_alpha8_pixel_t,rgb8_pixel_t>();
+  cc<rgb8_pixel_t,ycbcr_601_8_pixel_t>(); cc<ycbcr_601_8_pixel_t,rgb8_pixel_t>(); cc<rgb8_pixel_t,ycbcr_709_8_pixel_t>(); cc<ycbcr_709_8_pixel_t,rgb8_pixel_t>(); cc<ycbcr_601_8_pixel_t,rgb16_pixel_t>(); cc<gray_alpha8_pixel_t,rgba8_pixel_t>(); cc<gray_alpha8_pixel_t,rgb8_pixel_t>();
   cc<gray_alpha8_pixel_t,gray8_pixel_t>(); cc<cmyka8_pixel_t,rgba8_pixel_t>(); cc<gray8_pixel_t,rgba8_pixel_t>();
 }
 ''')
     d = C.astdump(src, src[:-4] + ".json", ["^boost::gil::default_color_converter_impl::"], extra=[])
     transfer_pairs(rep, d["functions"])
+    matrix_pairs(rep, d["functions"])
     d["functions"] = [f for f in d["functions"] if f["name"].endswith("operator()")]
     rep.rule("S5 toolbox converters reach channels only through get_color/static_for_each (no at_c, semantic_at_c, dynamic_at_c, operator[])")
     POS = ("boost::gil::at_c", "boost::gil::semantic_at_c", "boost::gil::dynamic_at_c")
@@ -309,6 +338,163 @@ def form_of(n, var):
             return Form(l.m / r, l.a, l.b, l.e, l.c / r)
         raise NoForm("division by the variable")
     raise NoForm("node %s %s" % (k, R.key(n)[:60]))
+
+
+# ---------------------------------------------------------------------------------------------
+# S9: linear colour transforms and their inverses (ycbcr)
+CH_RANGE = {"unsigned char": (0.0, 255.0), "signed char": (-128.0, 127.0), "unsigned short": (0.0, 65535.0), "short": (-32768.0, 32767.0),
+            "unsigned int": (0.0, 4294967295.0), "int": (-2147483648.0, 2147483647.0), "long": (-9223372036854775808.0, 9223372036854775807.0)}
+
+
+def aff_add(a, b, k=1.0):
+    out = dict(a)
+    for v, c in b.items():
+        out[v] = out.get(v, 0.0) + k * c
+    return out
+
+
+def aff_of(n, notes):
+    """expression over get_color(src, X) -> {X: coefficient, 1: constant}; channel_convert between integral types is the affine range map"""
+    n = R.strip(n)
+    k = n.get("k")
+    if k in ("Float", "Int"):
+        return {1: float(n["v"])}
+    if "const" in n and k not in ("DeclRef", "Member") and R.is_lit(str(n["const"])):
+        return {1: float(n["const"])}
+    if k in ("Construct", "FunctionalCast", "Temporary") and len(n.get("args", [])) == 1:
+        return aff_of(n["args"][0], notes)
+    if k == "Unary" and n.get("op") == "-":
+        return {v: -c for v, c in aff_of(n["e"], notes).items()}
+    if k == "Binary" and n["op"] in ("+", "-"):
+        return aff_add(aff_of(n["l"], notes), aff_of(n["r"], notes), 1.0 if n["op"] == "+" else -1.0)
+    if k == "Binary" and n["op"] in ("*", "/", ">>"):
+        l, r = aff_of(n["l"], notes), aff_of(n["r"], notes)
+        if n["op"] == ">>":
+            if set(r) != {1}:
+                raise NoForm("variable shift")
+            return {v: c / (2.0 ** r[1]) for v, c in l.items()}
+        if n["op"] == "/":
+            if set(r) != {1}:
+                raise NoForm("division by a variable")
+            return {v: c / r[1] for v, c in l.items()}
+        if set(l) <= {1}:
+            return {v: c * l.get(1, 0.0) for v, c in r.items()}
+        if set(r) <= {1}:
+            return {v: c * r.get(1, 0.0) for v, c in l.items()}
+        raise NoForm("product of two variables")
+    if k == "Call":
+        nm = n["callee"]["name"]
+        short = nm.split("::")[-1]
+        if short == "get_color":
+            tag = re.sub(r"\{\}$", "", R.key(n["args"][1])).split("::")[-1]
+            return {tag: 1.0}
+        if short.startswith("operator ") and (n.get("obj") is not None or n.get("args")):
+            return aff_of(n.get("obj") or n["args"][0], notes)
+        if short == "clamp" and len(n["args"]) == 3:
+            notes.append("clamp(%s,%s)" % (R.key(n["args"][1]), R.key(n["args"][2])))
+            return aff_of(n["args"][0], notes)
+        if short == "channel_convert" and len(n["args"]) == 1:
+            m = re.search(r"channel_convert<(.*)>$", n["callee"].get("full", ""))
+            inner = aff_of(n["args"][0], notes)
+            if m:
+                parts = [x.strip() for x in m.group(1).rsplit(",", 1)] if "," in m.group(1) else [m.group(1).strip(), ""]
+                dst, src = parts[0], parts[1] if len(parts) > 1 else ""
+                src = src.replace("const ", "").replace("&", "").strip()
+                dst = dst.replace("const ", "").replace("&", "").strip()
+                if src == dst or src == "":
+                    return inner
+                if src in CH_RANGE and dst in CH_RANGE:
+                    (sl, sh), (dl, dh) = CH_RANGE[src], CH_RANGE[dst]
+                    k_ = (dh - dl) / (sh - sl)
+                    notes.append("channel_convert<%s>(%s): range map with slope %.3g" % (dst, src, k_))
+                    out = {v: c * k_ for v, c in inner.items()}
+                    out[1] = out.get(1, 0.0) - sl * k_ + dl
+                    return out
+            raise NoForm("channel_convert %s" % n["callee"].get("full", "")[-80:])
+        raise NoForm("call %s" % nm)
+    raise NoForm("node %s %s" % (k, R.key(n)[:60]))
+
+
+def matrix_pairs(rep, fns):
+    rep.rule("S9 ycbcr (601 and 709): the rgb->ycbcr and ycbcr->rgb converters are extracted from the AST as affine maps over the colour channels (named values inlined, "
+             "channel_convert between integral types as the affine range map, >>8 as /256); their composition must be the identity: coefficients within 0.02, "
+             "constants within 1.5 levels, and every channel narrowed into an 8-bit level is clamped first; a refutation carries the grey (128,128,128) pushed through both closed forms")
+
+    def cls_of(f):
+        m = re.match(r"boost::gil::default_color_converter_impl<(.*)>$", f.get("cls", ""))
+        if not m:
+            return None
+        t = m.group(1)
+        fam = "601" if "ycbcr_601" in t else ("709" if "ycbcr_709" in t else None)
+        if fam is None or "toolbox" not in f.get("file", ""):
+            return None
+        return fam, ("fwd" if t.lstrip().startswith("boost::mp11::mp_list<boost::gil::red_t") else "inv")
+    maps = {}
+    for f in fns:
+        c = cls_of(f)
+        if c is None or f.get("body") is None:
+            continue
+        g = R.canonize(f)
+        stores = {}
+        notes = []
+        try:
+            for k, x, _ in R.effects(g["body"]):
+                m = re.match(r"\(get_color\(\$1,(\w+)\{\}\) = ", k)
+                if m:
+                    stores[m.group(1)] = (aff_of(x.get("r") or x["args"][1], notes), list(notes))
+        except NoForm as e:
+            maps.setdefault(c + (f["name"].split("::")[-1] + ":" + str(len(f["full"])),), ("unknown", str(e), f))
+            continue
+        if len(stores) == 3:
+            dstbits = "16" if "unsigned short" in f["full"].split("operator()")[-1].split("convert")[-1] else "8"
+            maps[c + (f["name"].split("::")[-1] + "<" + dstbits + ">",)] = ("ok", stores, f)
+    for fam in ("601", "709"):
+        fw = [(k, v) for k, v in maps.items() if k[0] == fam and k[1] == "fwd" and v[0] == "ok"]
+        inv = [(k, v) for k, v in maps.items() if k[0] == fam and k[1] == "inv"]
+        if not fw or not inv:
+            rep.fail_analysis("S9: ycbcr_%s converters not instantiated / not recognised (%d forward, %d inverse)" % (fam, len(fw), len(inv)))
+            continue
+        F = fw[0][1][1]
+        for (k, v) in sorted(inv, key=lambda t: t[0][2]):
+            rep.count("obligations:S9")
+            key = "S9:ycbcr_%s:%s" % (fam, k[2])
+            where = R.fn_where(v[2])
+            if v[0] != "ok":
+                rep.incon("S9-matrix-pair", key, {"unrecognised": v[1]})
+                continue
+            I = v[1]
+            prob, det = [], {}
+            scale = 257.0 if k[2].endswith("<16>") else 1.0
+            for out in ("red_t", "green_t", "blue_t"):
+                if out not in I:
+                    prob.append("%s is not stored" % out)
+                    continue
+                a, notes = I[out]
+                comp = {1: a.get(1, 0.0)}
+                for var, c in a.items():
+                    if var == 1:
+                        continue
+                    if var not in F:
+                        prob.append("%s reads %s, which the forward converter does not produce" % (out, var))
+                        continue
+                    comp = aff_add(comp, F[var][0], c)
+                comp = {q: c / scale for q, c in comp.items()}
+                det[out] = {str(q): round(c, 4) for q, c in comp.items()}
+                for col in ("red_t", "green_t", "blue_t"):
+                    want = 1.0 if col == out else 0.0
+                    if abs(comp.get(col, 0.0) - want) > 0.02:
+                        prob.append("%s of ycbcr->rgb(rgb->ycbcr) has coefficient %.4f on %s (expected %g)" % (out, comp.get(col, 0.0), col, want))
+                if abs(comp.get(1, 0.0)) > 1.5:
+                    prob.append("%s of ycbcr->rgb(rgb->ycbcr) has the constant %.2f" % (out, comp.get(1, 0.0)))
+                if not any(nn.startswith("clamp(0") for nn in notes):
+                    prob.append("%s is narrowed to the destination channel without a clamp to [0,255]" % out)
+            if prob:
+                grey = {c: (sum(cf * (128.0 if q != 1 else 1.0) for q, cf in d.items())) for c, d in ((o, {(q if q == "1" else q): v_ for q, v_ in det[o].items()}) for o in det)}
+                rep.violation("S9-matrix-pair", key, where, {"problems": prob[:8], "composition": det,
+                              "witness": "rgb (128,128,128) -> ycbcr -> rgb by the closed forms: %s" % {o: round(sum(cf * (1.0 if q == "1" else 128.0) for q, cf in det[o].items()), 1) for o in det}})
+            else:
+                rep.ok("S9-matrix-pair", key, det)
+    rep.floor("obligations:S9", 3)
 
 
 def piecewise_of(f):
